@@ -62,7 +62,7 @@ def evaluate(acc, case, prop, nontrivial_fn, layout=printer.PLAIN,
     return outcome
 
 
-def run_shard(spec, prop, base_profile, nontrivial_fn, need=()):
+def run_shard(spec, prop, base_profile, nontrivial_fn, need=(), tolerance=1):
     acc = Acc()
     prof = profile_for(prop, base_profile)
     acc.extra['avoided_known'] = sorted(
@@ -72,15 +72,16 @@ def run_shard(spec, prop, base_profile, nontrivial_fn, need=()):
     @hyp_settings(spec['examples'])
     @given(gen.programs(prof, need=need))
     def run(case):
-        evaluate(acc, case, prop, nontrivial_fn)
+        evaluate(acc, case, prop, nontrivial_fn, tolerance=tolerance)
     run()
     return acc
 
 
-def replay(case, prop, nontrivial_fn):
+def replay(case, prop, nontrivial_fn, tolerance=1):
     acc = Acc()
     evaluate(acc, {'program': case['program'],
-                   'population': case['population']}, prop, nontrivial_fn)
+                   'population': case['population']}, prop, nontrivial_fn,
+             tolerance=tolerance)
     return [(f['sig'], f['what']) for f in acc.failures.values()]
 
 
@@ -127,14 +128,14 @@ def _hoist(program, path):
     return None
 
 
-def shrink(failure, prop, nontrivial_fn, seconds=25):
+def shrink(failure, prop, nontrivial_fn, seconds=25, tolerance=1):
     case = failure['case']
     sig = failure['sig']
     deadline = time.time() + seconds
 
     def fails(candidate):
         try:
-            outcome = progcheck.run_case(candidate)
+            outcome = progcheck.run_case(candidate, tolerance=tolerance)
         except (HarnessError, Exception):
             return None
         if outcome.status == 'fail' and outcome.sig == sig:
